@@ -12,6 +12,7 @@ INVARIANT DeterministicIgnoresRng
 INVARIANT StreamAccounting
 INVARIANT PropertyMemoMeansFreshSeed
 INVARIANT HomWellDefined
+INVARIANT HistoryShapes
 INVARIANT Export
 PROPERTY NoWrite
 CHECK_DEADLOCK FALSE
